@@ -41,7 +41,15 @@ def main():
     order = _np.random.default_rng([a.seed & 0xFFFFFFFF, len(cells)]).permutation(len(cells))
     cells = [cells[i] for i in order]
     done, skipped, errors = 0, 0, []
-    for cell in cells:
+    for ci, cell in enumerate(cells):
+        if ci and ci % 8 == 0:
+            # compiled executables of earlier cells are not needed again in this process (the
+            # persistent cache on disk keeps them): bound the memory of a long shard
+            try:
+                import jax
+                jax.clear_caches()
+            except Exception:
+                pass
         if time.time() - t0 > a.budget:
             skipped += 1
             continue
